@@ -113,6 +113,7 @@ func (rm *RpcMultiplexer) CallUnaryMethod(
 		log.Error().Err(err).Msg("CallUnaryMethod: conn.Write")
 		return nil, err
 	}
+	vGate("mux.await.window", rm, streamId)
 
 	select {
 	case <-respDone:
